@@ -160,9 +160,11 @@ def run (j : Json) : Except String Json := do
     | .error _ => pure none : Except String (Option ReadObs))
   let frameSeen := (implJ.getObjValAs? Bool "frame_seen").toOption.getD true
   let scopeKept := (implJ.getObjValAs? Bool "scope_kept").toOption.getD true
+  -- `Assign.__init__`: the path it keeps (first step of an S-rooted path re-spelled per the extracted table)
+  let kept := initPath (genSFirst "Assign") c.sroot c.steps
   let (out, rdOut) := match rd with
-    | some rs => assignThenRead c.env c.sroot c.sref missing c.heap c.target c.steps vs rs
-    | none => (assign c.env c.sroot c.sref missing c.heap c.target c.steps vs, none)
+    | some rs => assignThenRead c.env c.sroot c.sref missing c.heap c.target kept vs rs
+    | none => (assign c.env c.sroot c.sref missing c.heap c.target kept vs, none)
   let modelObs := observe c.env out
   let modelRead := observeRead c.env rdOut
   -- the prescription reads an S-rooted path the way such a path is evaluated: a first step spelled
